@@ -64,6 +64,12 @@ func c05Shapes() []linkShape {
 		add("chain-out-to-in", "{UP}../outside/back") // back -> ../src/a.txt
 		add("chain-out-to-out", "{UP}../outside/chain")
 		add("out-dir-with-inner-links", "{UP}../outside/dirlinks")
+		// inside as written, but ".." is applied after a component that is
+		// itself a link (top -> ../.. = the root, up1 -> .. = sub), so the
+		// operating system ends up elsewhere than the text suggests
+		add("through-link-out-file", "{UP}sub/deep/top/../outside/file.txt")
+		add("through-link-out-dir", "{UP}sub/deep/top/../outside/dir")
+		add("through-link-stays-inside", "{UP}sub/deep/up1/../a.txt")
 		// (a link to the parent of src makes a dereferencing walk cyclic: C19)
 		add("root-itself", "{UP}.")
 	}
@@ -119,6 +125,12 @@ func c05BuildWorld(c c05Case) error {
 		}
 	}
 	for _, l := range c.Links {
+		if strings.HasPrefix(l.Name, "through-link") {
+			os.Symlink("../..", "/w/src/sub/deep/top")
+			os.Symlink("..", "/w/src/sub/deep/up1")
+		}
+	}
+	for _, l := range c.Links {
 		at, target := c05Subst(l)
 		p := filepath.Join("/w/src", at)
 		os.MkdirAll(filepath.Dir(p), 0755)
@@ -132,14 +144,15 @@ func c05BuildWorld(c c05Case) error {
 
 // linkFacts describes one link of the source tree independently of go-slug.
 type linkFacts struct {
-	Rel       string
-	Target    string
-	Absolute  bool
-	LexInside bool // relative, and stays below the archive root when read at its own position
-	LocInside bool // the place it names (lexically, from its real location) is inside /w/src
-	Allowed   bool
-	FinalKind string // kind of the physical final target: file | dir | missing | link-loop | other
-	FinalPath string
+	Rel         string
+	Target      string
+	Absolute    bool
+	LexInside   bool // relative, and stays below the archive root when read at its own position
+	LocInside   bool // the place it names (lexically, from its real location) is inside /w/src
+	Allowed     bool
+	ThroughLink bool   // inside as written but led outside by another link on the way
+	FinalKind   string // kind of the physical final target: file | dir | missing | link-loop | other
+	FinalPath   string
 }
 
 func c05Facts(rel, target string, allow []string) linkFacts {
@@ -166,6 +179,21 @@ func c05Facts(rel, target string, allow []string) linkFacts {
 	}
 	res, loop := mon.Resolve(filepath.Join("/w/src", rel))
 	f.FinalPath = res
+	if !loop && f.LocInside && !mon.Within("/w/src", res) {
+		// inside as written, outside when followed through the other links
+		// on the way: the link leads out of the tree
+		f.LocInside = false
+		f.ThroughLink = true
+		f.Allowed = false
+		for _, a := range allow {
+			if !filepath.IsAbs(a) {
+				a = filepath.Join("/w/src", a)
+			}
+			if mon.Within(filepath.Clean(a), res) {
+				f.Allowed = true
+			}
+		}
+	}
 	switch {
 	case loop:
 		f.FinalKind = "link-loop"
